@@ -229,6 +229,11 @@ def usage_queries_consult_the_map(ctx, rid="R4"):
         helper = [c for c in fd.body.calls() if (c.callee or "") in ctx.prog.bodies and (c.callee or "").startswith(SCHEDULE + "::")
                   and any((c2.callee or "").endswith("HashMap::get") for h in hosts(ctx, c.callee, 1) for c2 in h.body.calls())]
         cand = look + helper
+        # a loop whose body does the lookup: its header stands for the lookup (an empty list of vehicle types has nothing to count)
+        for nc, entry in loops_of(fd):
+            inside = fd.cfg.reachable_from(entry)
+            if any(c.bb in inside and nc.bb in fd.cfg.reachable_from(c.bb) for c in look + helper):
+                cand.append(nc)
         if not cand or not rets:
             ctx.undecided(o, "no lookup / return found")
             continue
